@@ -244,6 +244,38 @@ var c09Scale = []scaleFamily{
 	{"string-pad", func(n int) (string, any) { return fmt.Sprintf("pad_left('x', `%d`)", n), nil }},
 	{"string-trim", func(n int) (string, any) { return "trim(@)", strings.Repeat(" ", n/2) + "x" + strings.Repeat(" ", n/2) }},
 	{"expr-or-chain", func(n int) (string, any) { return strings.Repeat("a||", min(n, 40000)) + "a", map[string]any{"a": nil} }},
+	// the same chains with every operand truthy / falsy (each short-circuit direction), nested on the
+	// right, mixed, negated, inside a filter: evaluating an operand twice anywhere doubles per level
+	{"expr-or-chain-truthy", func(n int) (string, any) {
+		return strings.Repeat("a||", min(n, 40000)) + "a", map[string]any{"a": json.Number("1")}
+	}},
+	{"expr-and-chain-truthy", func(n int) (string, any) {
+		return strings.Repeat("a&&", min(n, 40000)) + "a", map[string]any{"a": json.Number("1")}
+	}},
+	{"expr-and-chain-falsy", func(n int) (string, any) { return strings.Repeat("a&&", min(n, 40000)) + "a", map[string]any{"a": nil} }},
+	{"expr-or-and-mixed", func(n int) (string, any) {
+		return strings.Repeat("a||b&&", min(n, 20000)) + "a", map[string]any{"a": json.Number("1"), "b": nil}
+	}},
+	{"expr-or-right-nested", func(n int) (string, any) {
+		k := min(n, 4000)
+		return strings.Repeat("(b||", k) + "a" + strings.Repeat(")", k), map[string]any{"a": json.Number("1"), "b": nil}
+	}},
+	{"expr-not-chain", func(n int) (string, any) { return strings.Repeat("!", min(n, 9000)) + "a", map[string]any{"a": json.Number("1")} }},
+	{"expr-or-chain-in-filter", func(n int) (string, any) {
+		return "xs[?" + strings.Repeat("@||", min(n, 2000)) + "@]", map[string]any{"xs": []any{json.Number("1"), nil, json.Number("2")}}
+	}},
+	{"expr-comparison-chain", func(n int) (string, any) {
+		return strings.Repeat("a==", min(n, 20000)) + "a", map[string]any{"a": json.Number("1")}
+	}},
+	{"expr-sum-chain", func(n int) (string, any) {
+		return strings.Repeat("a+", min(n, 20000)) + "a", map[string]any{"a": json.Number("1")}
+	}},
+	{"expr-pipe-chain", func(n int) (string, any) {
+		return strings.Repeat("@|", min(n, 20000)) + "a", map[string]any{"a": json.Number("1")}
+	}},
+	{"expr-let-chain", func(n int) (string, any) {
+		return strings.Repeat("let $v = a in ", min(n, 4000)) + "$v", map[string]any{"a": json.Number("1")}
+	}},
 	{"expr-dot-chain", func(n int) (string, any) { return strings.Repeat("a.", min(n, 40000)) + "a", map[string]any{"a": nil} }},
 	{"expr-index-chain", func(n int) (string, any) { return "a" + strings.Repeat("[0]", min(n, 40000)), map[string]any{"a": nil} }},
 	{"expr-paren-nest", func(n int) (string, any) {
